@@ -12,7 +12,8 @@
    message (canonical encoding); [ed_abs] = what the accessors of the dump read back. *)
 From LibcoapV Require Import Base.Tactics Base.Bytes Wire.OptCodec Wire.OptCodecProofs Wire.Pdu
   Wire.PduProofs Wire.Build Edit.EdSpec Edit.EdBytes Edit.EdSpecProofs Edit.EdPatch
-  Edit.EdBytesProofs Edit.EdStart Edit.EdDup Edit.EdResize Edit.EdRefuted Edit.EdExample.
+  Edit.EdBytesProofs Edit.EdStart Edit.EdDup Edit.EdBuild Edit.EdResize Edit.EdHeader Edit.EdSize
+  Edit.EdRefuted Edit.EdExample.
 Local Open Scope Z_scope.
 
 (* ---- refinement: bytes vs. abstract message ---- *)
@@ -26,6 +27,23 @@ Theorem C04_edit_refines : forall q e,
   ed_b_apply (ed_of_pdu q) e = Some (fst (ed_apply q e), ed_of_pdu (snd (ed_apply q e))).
 Proof. exact ed_b_apply_refines. Qed.
 Print Assumptions C04_edit_refines.
+
+(* the same in the shape of the property text: what the accessors show after the edit is the edit
+   applied to what they showed before; a refused edit leaves the PDU as it was (or with the
+   implicit Hop-Limit only) *)
+Theorem C04_edit_abs : forall q e,
+  ed_pwf q -> ed_op_ok e ->
+  exists r p',
+    ed_b_apply (ed_of_pdu q) e = Some (r, p') /\
+    ed_abs (ed_of_pdu q) = Some (p_msg q) /\
+    r = fst (ed_apply q e) /\
+    ed_abs p' = Some (p_msg (snd (ed_apply q e))) /\
+    (r = false ->
+     p' = ed_of_pdu q \/
+     exists n v, (e = EdInsert n v \/ e = EdUpdate n v) /\ ed_hop_trigger (p_msg q) n = true /\
+                 p' = ed_of_pdu (snd (add_opt_raw q 16 [16]))).
+Proof. exact ed_b_apply_abs. Qed.
+Print Assumptions C04_edit_abs.
 
 (* edit lists of any length, by induction *)
 Theorem C04_edits_refine : forall es q,
@@ -56,10 +74,15 @@ Theorem C04_start_parsed : forall pr bs max,
 Proof. exact ed_start_wire_rep. Qed.
 Print Assumptions C04_start_parsed.
 
-(* ... or built through the API *)
+(* ... or built through the API: coap_pdu_init, coap_add_token, coap_add_option, coap_add_data
+   transcribed on the buffer give exactly the canonical buffer of the abstract builder's message
+   (same return values), and that message is well-formed *)
 Theorem C04_start_built : forall ops ty code mid max,
-  0 <= max -> Forall ed_bop_ok ops -> ed_pwf (snd (run_ops (pdu_init ty code mid max) ops)).
-Proof. exact ed_pwf_built. Qed.
+  0 <= max -> Forall ed_bop_ok ops ->
+  let q := snd (run_ops (pdu_init ty code mid max) ops) in
+  ed_b_build (ed_b_init ty code mid max) ops =
+    Some (fst (run_ops (pdu_init ty code mid max) ops), ed_of_pdu q) /\ ed_pwf q.
+Proof. exact ed_built_refines. Qed.
 Print Assumptions C04_start_built.
 
 (* edits, then the wire, then the parser: the bytes after any edit list serialise (all three
@@ -184,6 +207,32 @@ Theorem C04_token_succeeds_iff : forall q t,
 Proof. exact ed_token_succeeds_iff. Qed.
 Print Assumptions C04_token_succeeds_iff.
 
+(* ---- sizes ---- *)
+
+(* max_size is respected: a message that fits (or has no limit) still does after any edit list *)
+Theorem C04_max_size_respected : forall es q,
+  ed_pwf q -> Forall ed_op_ok es -> ed_size_inv q -> ed_size_inv (snd (ed_run q es)).
+Proof. exact ed_size_inv_run. Qed.
+Print Assumptions C04_max_size_respected.
+
+(* removal never makes the message longer, although the following header may grow by 2 bytes *)
+Theorem C04_remove_not_longer : forall q n,
+  ed_mwf (p_msg q) -> used (p_msg (snd (ed_remove q n))) <= used (p_msg q).
+Proof. exact ed_remove_not_longer. Qed.
+Print Assumptions C04_remove_not_longer.
+
+(* an insertion is refused for lack of space only when the message with the option would exceed
+   max_size - 2: coap_insert_option asks for used_size + shift before it knows how much the
+   following header shrinks (0..2 bytes) *)
+Theorem C04_insert_refusal_conservative : forall q n v,
+  ed_mwf (p_msg q) -> 0 <= n ->
+  fst (add_opt_raw q n v) = false ->
+  (n =? last_num (m_opts (p_msg q))) && negb (repeatable n) = false ->
+  p_max q <> 0 /\
+  p_max q - 2 < used (p_msg (set_opts q (insert_opt n v (m_opts (p_msg q))))).
+Proof. exact ed_add_opt_raw_refusal_conservative. Qed.
+Print Assumptions C04_insert_refusal_conservative.
+
 (* ---- coap_pdu_duplicate_lkd ---- *)
 
 Theorem C04_dup_refines : forall q mid' smax t drop_,
@@ -214,6 +263,28 @@ Theorem C04_update_token_cast8_refuted :
               ~ ed_refines_step ed_b_token_cast8 q t.
 Proof. exact ed_token_cast8_refuted. Qed.
 Print Assumptions C04_update_token_cast8_refuted.
+
+(* second defect found: on a PDU with a session and an encoded header, coap_update_token must leave
+   the header in memory in step with the new token (retransmission sends it as it is).  Repaired
+   code: *)
+Theorem C04_token_header_in_step : forall q t,
+  ed_pwf q ->
+  ed_b_token_hdr UDP (header UDP (p_msg q)) (ed_of_pdu q) t =
+  Some (fst (ed_token q t), ed_of_pdu (snd (ed_token q t)),
+        header UDP (p_msg (snd (ed_token q t)))).
+Proof. exact ed_b_token_hdr_in_step. Qed.
+Print Assumptions C04_token_header_in_step.
+
+(* pinned code (no fix-up on the used_size == 0 path): stale header *)
+Theorem C04_token_header_prefix_refuted :
+  exists q t, ed_pwf q /\
+    match ed_b_token_hdr_gen false UDP (header UDP (p_msg q)) (ed_of_pdu q) t with
+    | Some (r, p', h') => r = true /\ ed_abs p' = Some (p_msg (snd (ed_token q t))) /\
+                          h' <> header UDP (p_msg (snd (ed_token q t)))
+    | None => False
+    end.
+Proof. exact ed_b_token_hdr_prefix_refuted. Qed.
+Print Assumptions C04_token_header_prefix_refuted.
 
 (* ---- non-vacuity: a concrete message and edit list meet all the hypotheses above ---- *)
 
